@@ -24,6 +24,7 @@ DirClause(r) ==
   ELSE IF r.simfilepath # OpenTarget(v) THEN "simfile-path"
   ELSE IF r.open.st # o.st THEN (IF o.st = "ok" /\ r.open.st = "MSDParserError" THEN "strict-option-not-passed-through" ELSE "open-outcome")
   ELSE IF o.st = "ok" /\ r.open.file # o.file THEN "opened-the-wrong-file"
+  ELSE IF r.open2.st # "none" /\ r.open2.st # OpenOutcome(r.listing, r.stray, r.ignore, ~r.strict).st THEN "second-open-with-other-options"
   ELSE IF r.opendir.st # o.st THEN "opendir-outcome"
   ELSE IF o.st = "ok" /\ (r.opendir.file # o.file \/ r.opendir.path # o.file) THEN "opendir-file"
   ELSE IF r.encodings # <<>> /\ \E k \in DOMAIN r.encodings : r.encodings[k] # r.enc THEN "encoding-option-not-passed-through"
